@@ -104,7 +104,7 @@ def export_to_file_cases(ctx, mons):
             for cls, ext, kw in ((TimelineSVG, "svg", {}), (TimelineTex, "tex", {"build_pdf": False})):
                 for target in ("timeline." + ext, os.path.join("sub", "t." + ext), os.path.join(tmp, "abs." + ext), "./dot." + ext):
                     for d in ("up", "left"):
-                        data = [{"time": t0 + dt.timedelta(hours=7 * i), "width": 30 + i, "text": "L%d" % i} for i in range(4)]
+                        data = [{"time": t0 + dt.timedelta(hours=7 * i), "width": 30 + i, "text": ["L0", "L1 \u2026 \u00bd \ufb01", "caf\u00e9 <&>", "e\u0301\u00a0x\u00b2"][i]} for i in range(4)]
                         case = {"class": cls.__name__, "target": target if not os.path.isabs(target) else "<tmp>/abs." + ext, "direction": d}
                         try:
                             tl = cls(data, options={"direction": d, "initialWidth": 500, "initialHeight": 400})
